@@ -662,6 +662,8 @@ pub fn main(args: &[String]) -> i32 {
     let counts: Mutex<HashMap<String, u64>> = Mutex::new(HashMap::new());
     let shrunk: Mutex<HashSet<String>> = Mutex::new(HashSet::new());
     let runs = AtomicU64::new(0);
+    let pb_only_count = AtomicU64::new(0);
+    let dropped = AtomicU64::new(0);
     let steps = AtomicU64::new(0);
     let reopens = AtomicU64::new(0);
     let covered: Mutex<HashSet<(usize, usize)>> = Mutex::new(HashSet::new());
@@ -672,6 +674,7 @@ pub fn main(args: &[String]) -> i32 {
             let (g, items, next, fails, counts, shrunk, runs, steps, reopens, covered, distinct, samples, scratch) = (
                 &g, &items, &next, &fails, &counts, &shrunk, &runs, &steps, &reopens, &covered, &distinct, &samples, &scratch,
             );
+            let (pb_only_count, dropped) = (&pb_only_count, &dropped);
             sc.spawn(move || {
                 let rt = tokio::runtime::Builder::new_current_thread().enable_all().build().unwrap();
                 let dir = scratch.join(format!("t{th}"));
@@ -695,9 +698,21 @@ pub fn main(args: &[String]) -> i32 {
                                 }
                             }
                         }
+                        // The File store has no purge boundary at all: observations that differ from the
+                        // spec state ONLY in load_purge_boundary() = None are counted, 200 are kept in full.
+                        let pb_only = best.engine == "file"
+                            && best.mismatches.iter().all(|m| m.q == "load_purge_boundary" && m.got == "(0, 0)");
+                        if pb_only {
+                            let n = pb_only_count.fetch_add(1, Ordering::Relaxed);
+                            if n >= 200 {
+                                continue;
+                            }
+                        }
                         let mut fl = fails.lock().unwrap();
-                        if fl.len() < 60000 {
+                        if fl.len() < 1_000_000 {
                             fl.push(best);
+                        } else {
+                            dropped.fetch_add(1, Ordering::Relaxed);
                         }
                     }
                 };
@@ -798,6 +813,8 @@ pub fn main(args: &[String]) -> i32 {
         "distinct_sequences": distinct.lock().unwrap().len(),
         "dfs_depth": dfs_depth,
         "signature_counts": *counts.lock().unwrap(),
+        "file_purge_boundary_only_observations": pb_only_count.load(Ordering::Relaxed),
+        "fails_dropped": dropped.load(Ordering::Relaxed),
         "samples": *samples.lock().unwrap(),
         "fails": *fails.lock().unwrap(),
     });
